@@ -293,8 +293,31 @@ def parse_invariants(p, stats, decay_mothers=None):
 
     def flat(m):
         ch = p.build_decay_chains(m, stable_particles=[d for fs in p.list_decay_modes(m) for d in fs])
-        return [{k: jsonable(v) for k, v in line.items()} for line in ch[m]]
+        return jsonable(ch[m])
 
+    def rows(m):
+        ch = p.build_decay_chains(m, stable_particles=[d for fs in p.list_decay_modes(m) for d in fs])
+        return [{k: (len(v) if k == "fs" else jsonable(v)) for k, v in line.items()} if isinstance(line, dict) else jsonable(line)
+                for line in ch[m]]
+
+    # a CopyDecay whose source has a Decay block leaves both tables in place
+    if decay_mothers is not None:
+        for new, old in copies.items():
+            if old in decay_mothers and new not in decay_mothers and not (old in names and new in names):
+                raise Violation("copy_leaves_source_and_copy", {"new": new, "old": old, "mother_names": names[:30]})
+    # no table created by copying or conjugation shares a mutable parse-tree object with any other table
+    if trees is not None and decay_mothers is not None:
+        pd = p._parsed_decays
+        idsets = [(_lark_ids(t), t.children[0].children[0].value) for t in pd]
+        for a in range(len(pd)):
+            if idsets[a][1] in decay_mothers:
+                continue
+            for b in range(len(pd)):
+                if a != b and idsets[a][0] & idsets[b][0]:
+                    stats["derived_pairs_checked"] = stats.get("derived_pairs_checked", 0) + 1
+                    raise Violation("derived_table_shares_state",
+                                    {"kind": "any", "derived": idsets[a][1], "other": idsets[b][1], "positions": [a, b],
+                                     "shared_objects": len(idsets[a][0] & idsets[b][0])}, {"kind": "any"})
     pairs = []
     for new, old in copies.items():
         if new in names and old in names and names.index(new) != names.index(old):
@@ -324,9 +347,9 @@ def parse_invariants(p, stats, decay_mothers=None):
             if fd != fs_:
                 raise Violation("copy_equals_source", {"new": derived, "old": source, "new_table": fd[:4], "old_table": fs_[:4]})
         elif source in copies:
-            strip = lambda rows: [{k: v for k, v in r.items() if k != "fs"} | {"n": len(r["fs"])} for r in rows]  # noqa: E731
-            if strip(fd) != strip(fs_):
-                raise Violation("conj_of_copy_consistent", {"cdecay": derived, "source": source, "got": strip(fd)[:4], "want": strip(fs_)[:4]})
+            rd, rs = rows(derived), rows(source)
+            if rd != rs:
+                raise Violation("conj_of_copy_consistent", {"cdecay": derived, "source": source, "got": rd[:4], "want": rs[:4]})
 
 
 # ------------------------------------------------------------------ executor
@@ -340,7 +363,9 @@ def model_pass(case):
     def want(i, op):
         s = st[i]
         rk = json.dumps([i, s["regs_at_parse"], s["cc"]])
-        need.setdefault(rk, {"inst": i, "regs": s["regs_at_parse"], "cc": s["cc"], "ops": []})["ops"].append(op)
+        if rk not in need:  # every replica can also be asked for its full snapshot (needed when internal state is seen to change)
+            need[rk] = {"inst": i, "regs": s["regs_at_parse"], "cc": s["cc"], "ops": [{"q": "__snapshot__"}]}
+        need[rk]["ops"].append(op)
         return rk
 
     for op in case["ops"]:
@@ -711,11 +736,17 @@ def gen_session(rng: random.Random, cfg: dict | None = None) -> dict:
         elif k == "consume":
             ops.append({"op": "consume", "p": i, "m": mother(i), "how": rng.choice(["viewer", "from_dict", "expand"])})
         elif k == "interrupt":
-            if rng.random() < 0.2:
+            r = rng.random()
+            if r < 0.2:
                 inner = {"op": "parse", "p": i, "cc": rng.random() < 0.75}
+            elif r < 0.45:  # the query with the most in-flight arithmetic: rescaled printing
+                inner = {"op": "q", "p": i, "q": "print_decay_modes", "a": [mother(i)],
+                         "kw": dict(rng.choice([{"normalize": True}, {"scale": 0.5}, {"normalize": True, "print_model": False}, {"scale": 1.0, "ascending": True}]))}
             else:
                 inner = a_query(i)
-            ops.append({"op": "interrupt", "inner": inner, "frac": round(rng.random(), 4)})
+            # half of the kills land anywhere, half late in the call (after work has been done, before it is finished)
+            frac = rng.random() if rng.random() < 0.5 else 1.0 - 0.4 * rng.random() ** 2
+            ops.append({"op": "interrupt", "inner": inner, "frac": round(frac, 4)})
         elif k == "checkpoint":
             ops.append({"op": "checkpoint", "p": i})
         elif k == "reparse":
